@@ -135,7 +135,8 @@ def work(item):
                  dict(index=i, name=names[i]), "positive, sum 1 (1e-5)", [s1["fractions"], sum(s1["fractions"])])
             fact(st, s1["density"] > 0, "nist:density", dict(index=i, name=names[i]), "> 0", s1["density"])
             st.sample("nist", dict(index=i, name=names[i].decode(), macro=mname, elements=e), cap=2)
-        for bad in [b"", b"water, liquid", names[0] + b" ", names[3][:-1], b"H2O", None]:
+        near = [n + b", PPO doped" for n in names] + [n + b"x" for n in names] + [n[:-1] for n in names if n[:-1] not in names] + [n.lower() for n in names if n.lower() not in names]
+        for bad in [b"", b"water, liquid", names[0] + b" ", names[3][:-1], b"H2O", None] + near:      # every listed name extended, cut and case-folded
             p, err = L.call("GetCompoundDataNISTByName", bad)
             fact(st, (not p) and err is not None, "nist:accepts-unknown", dict(name=bad), "NULL and error", err)
         return st
@@ -172,7 +173,7 @@ def work(item):
             fact(st, all(x > 0 for x in s1["ge"]) and all(x > 0 for x in s1["gi"]) and len(s1["ge"]) == len(s1["gi"]), "nuclide:gammas",
                  dict(name=names[i]), "> 0", [s1["ge"], s1["gi"]])
             st.sample("nuclide", dict(index=i, name=names[i].decode(), Z=s1["Z"], A=s1["A"], N=s1["N"], lines=s1["lines"][:4]), cap=2)
-        for bad in [b"", b"55fe", b"55Fe ", b"Fe55", None]:
+        for bad in [b"", b"55fe", b"55Fe ", b"Fe55", None] + [n + b"m" for n in names] + [n[:-1] for n in names if n[:-1] not in names] + [n.lower() for n in names if n.lower() not in names]:
             p, err = L.call("GetRadioNuclideDataByName", bad)
             fact(st, (not p) and err is not None, "nuclide:accepts-unknown", dict(name=bad), "NULL and error", err)
         return st
@@ -196,7 +197,7 @@ def work(item):
                      dict(name=nm, atom=[z, fr, x, y, zz]), "1<=Z<=98 with form factor, 0<occupancy<=1", None)
             L.fn["Crystal_Free"](p)
             st.sample("crystal", dict(name=nm.decode(), cell=s["cell"], n_atom=len(s["atoms"])), cap=2)
-        for bad in [b"", b"si", b"Si ", b"Unobtainium", None]:
+        for bad in [b"", b"si", b"Si ", b"Unobtainium", None] + [n + b", doped" for n in names] + [n[:-1] for n in names if len(n) > 1 and n[:-1] not in names]:
             p, err = L.call("Crystal_GetCrystal", bad, None)
             fact(st, (not p) and err is not None, "crystal:accepts-unknown", dict(name=bad), "NULL and error", err)
         return st
